@@ -19,12 +19,12 @@ ASSUMPTIONS = ["CIDR entries with host bits set are don't-care", "when both spel
 TASK_LIMIT_S = {"quick": 240, "thorough": 3000}
 
 LABELS = ["a", "b", "ab"]
-IPS = ["10.1.2.3", "10.1.2.4", "192.168.0.1"]
+IPS = ["10.1.2.3", "10.1.2.4", "192.168.0.1", "10.255.3.255"]
 ENVVARS = ["http_proxy", "HTTP_PROXY", "https_proxy", "HTTPS_PROXY", "no_proxy", "NO_PROXY"]
 
 
 def bounds(tier):
-    return "42 hosts x (%s no_proxy lists) x 4 sources; connect(): 3 proxy options x 16 env combinations x 2 schemes x 2 exemption states; 10 proxy replies x 2 schemes x 3 auth" % (
+    return "43 hosts x (%s no_proxy lists) x 4 sources; connect(): 3 proxy options x 16 env combinations x 2 schemes x 2 exemption states; 10 proxy replies x 2 schemes x 3 auth" % (
         "all single entries + all pairs" if tier == "thorough" else "all single entries + pairs with a 12-entry subset")
 
 
